@@ -24,6 +24,7 @@ Definition ds_core (d : dstate) (seq : N) (body : bytes) (b e : bool) : dstate *
   else if e then
     if dfsize d =? 0 then (d, SlErr) else
     if negb (seq =? dfnext d) then (reset_frags d, SlErr) else
+    if cap <? dfsize d + nlen body then (reset_frags d, SlErr) else
     match join (dfrags d ++ [body]) (dfsize d + nlen body) with
     | Some s => (mkD [] 0 (dfnext d) (dslices d) (dssize d), SlSlice s)
     | None => (d, SlPanic)
@@ -31,6 +32,7 @@ Definition ds_core (d : dstate) (seq : N) (body : bytes) (b e : bool) : dstate *
   else
     if dfsize d =? 0 then (d, SlErr) else
     if negb (seq =? dfnext d) then (reset_frags d, SlErr) else
+    if cap <? dfsize d + nlen body then (reset_frags d, SlErr) else
     (mkD (dfrags d ++ [body]) (dfsize d + nlen body) (seq_next (dfnext d)) (dslices d) (dssize d), SlMore).
 
 Lemma decode_slice_hdr d seq ts m h bos st sp body :
@@ -110,12 +112,13 @@ Proof. do 2 eexists. reflexivity. Qed.
 
 (* the continuation fragments of one slice: all "more", then the joined slice *)
 Lemma chain_run h m : hdr_ok h -> forall cs d seq, cs <> [] -> 0 < dfsize d -> dfnext d = seq ->
-  dfsize d = nlen (concat (dfrags d)) ->
+  dfsize d = nlen (concat (dfrags d)) -> dfsize d + nlen (concat cs) <= cap ->
   exists d2, same_sb d d2 /\
     dec_run d (bpkts seq m (frag_payloads h false cs)) =
     (let '(d3, r) := push d2 m (concat (dfrags d) ++ concat cs) in (d3, repeat DMore (length cs - 1) ++ [r])).
 Proof.
-  intros Hh. induction cs as [|c t IH]; intros d seq Hne Hsz Hnx Hfs; [contradiction|].
+  intros Hh. induction cs as [|c t IH]; intros d seq Hne Hsz Hnx Hfs Hcap; [contradiction|].
+  cbn [concat] in Hcap. rewrite nlen_app in Hcap.
   destruct t as [|c2 t2].
   - (* end fragment *)
     cbn [frag_payloads bpkts dec_run].
@@ -123,6 +126,7 @@ Proof.
                 (mkD [] 0 (dfnext d) (dslices d) (dssize d), SlSlice (concat (dfrags d) ++ c))).
     { rewrite decode_slice_hdr by (try assumption; lia). unfold ds_core. cbn [N.eqb andb].
       destruct (N.eqb_spec (dfsize d) 0); [lia|]. rewrite Hnx, N.eqb_refl. cbn [negb].
+      destruct (N.ltb_spec cap (dfsize d + nlen c)); [lia|].
       replace (dfsize d + nlen c) with (nlen (concat (dfrags d ++ [c]))) by (rewrite concat_snoc, nlen_app; lia).
       rewrite join_exact, concat_snoc. reflexivity. }
     rewrite (dec_of_slice _ _ _ _ E). cbn [pmarker concat length Nat.sub repeat app]. rewrite app_nil_r.
@@ -134,10 +138,12 @@ Proof.
     assert (E : decode_slice d (mkPkt seq 0 false (header h 0 0 0 ++ c)) =
                 (mkD (dfrags d ++ [c]) (dfsize d + nlen c) (seq_next (dfnext d)) (dslices d) (dssize d), SlMore)).
     { rewrite decode_slice_hdr by (try assumption; lia). unfold ds_core. cbn [N.eqb andb].
-      destruct (N.eqb_spec (dfsize d) 0); [lia|]. rewrite Hnx, N.eqb_refl. reflexivity. }
+      destruct (N.eqb_spec (dfsize d) 0); [lia|]. rewrite Hnx, N.eqb_refl. cbn [negb].
+      destruct (N.ltb_spec cap (dfsize d + nlen c)); [lia|]. reflexivity. }
     rewrite (dec_of_more _ _ _ E). set (d1 := mkD _ _ _ _ _).
-    destruct (IH d1 (seq_next seq)) as (d2 & Hsb & Hrun); [discriminate|unfold d1; cbn; lia|unfold d1; cbn; now rewrite Hnx| |].
+    destruct (IH d1 (seq_next seq)) as (d2 & Hsb & Hrun); [discriminate|unfold d1; cbn; lia|unfold d1; cbn; now rewrite Hnx| | |].
     { unfold d1; cbn. rewrite concat_snoc, nlen_app. lia. }
+    { unfold d1; cbn [dfsize]. lia. }
     rewrite Hrun. exists d2. split.
     + destruct Hsb as (S1 & S2 & S3). unfold same_sb. unfold d1 in *; cbn [dslices dssize] in *. splits; [assumption|assumption|].
       intros HI. apply S3. destruct HI as (H1 & H2 & H3). unfold Inv; cbn. rewrite concat_snoc, nlen_app. splits; [lia|assumption|assumption].
@@ -148,12 +154,12 @@ Qed.
 
 (* the packets of one batch, from ANY decoder state: "more" on all but the last, and the last one
    hands the batch's bytes (as one slice) to the frame level *)
-Lemma batch_run max b h m : 5 <= max -> batch_ok max b -> hdr_ok h -> forall d seq,
+Lemma batch_run max b h m : 5 <= max -> batch_ok max b -> hdr_ok h -> nlen (concat b) <= cap -> forall d seq,
   exists d2, same_sb d d2 /\
     dec_run d (bpkts seq m (batch_payloads max (b, h))) =
     (let '(d3, r) := push d2 m (concat b) in (d3, repeat DMore (length (batch_payloads max (b, h)) - 1) ++ [r])).
 Proof.
-  intros Hm (Hne & Hf & Hsz) Hh d seq. pose proof Hh as (Ht & Hb & Hft).
+  intros Hm (Hne & Hf & Hsz) Hh Htot d seq. pose proof Hh as (Ht & Hb & Hft).
   assert (AGG : forall body, exists d2, same_sb d d2 /\
     dec_run d (bpkts seq m [header h (hbos h) 1 1 ++ body]) =
     (let '(d3, r) := push d2 m body in (d3, repeat DMore (length [header h (hbos h) 1 1 ++ body] - 1) ++ [r]))).
@@ -179,7 +185,9 @@ Proof.
       { rewrite decode_slice_hdr by (try assumption; lia). reflexivity. }
       rewrite (dec_of_more _ _ _ E). set (d1 := mkD _ _ _ _ _).
       destruct (chain_run h m Hh (c2 :: ct) d1 (seq_next seq)) as (d2 & Hsb & Hrun);
-        [discriminate|unfold d1; cbn; lia|reflexivity|unfold d1; cbn; now rewrite app_nil_r|].
+        [discriminate|unfold d1; cbn; lia|reflexivity|unfold d1; cbn; now rewrite app_nil_r| |].
+      { unfold d1; cbn [dfsize]. cbn [concat] in Htot, Hcc. rewrite app_nil_r in Htot.
+        rewrite <- Hcc, nlen_app in Htot. exact Htot. }
       rewrite Hrun. exists d2. split.
       * destruct Hsb as (S1 & S2 & S3). unfold same_sb. unfold d1 in *; cbn [dslices dssize] in *. splits; [assumption|assumption|].
         intros HI. apply S3. destruct HI as (H1 & H2 & H3). unfold Inv; cbn. rewrite app_nil_r. tauto.
@@ -230,7 +238,7 @@ Proof.
   destruct rest as [|bh2 rest2].
   - (* last batch *)
     clear IH. subst P F. cbn [map concat fst] in *. rewrite !app_nil_r in *.
-    destruct (batch_run max b h true Hm Hb Hh d seq) as (d2 & (S1 & S2 & S3) & Hrun). rewrite Hrun.
+    destruct (batch_run max b h true Hm Hb Hh ltac:(rewrite nlen_app in HF; lia) d seq) as (d2 & (S1 & S2 & S3) & Hrun). rewrite Hrun.
     specialize (S3 HI). pose proof S3 as (I1 & I2 & I3). pose proof HI as (J1 & J2 & J3).
     unfold push. rewrite nlen_app in HF. destruct (N.ltb_spec cap (dssize d2 + nlen (concat b))); [lia|].
     cbn [negb dslices dssize].
@@ -246,7 +254,8 @@ Proof.
     subst P. change (concat (map (batch_payloads max) ((b, h) :: bh2 :: rest2))) with (batch_payloads max (b, h) ++ Prest).
     destruct (bpkts_app (batch_payloads max (b, h)) seq true Prest HPr) as [s' ->].
     rewrite dec_run_app.
-    destruct (batch_run max b h false Hm Hb Hh d seq) as (d2 & (S1 & S2 & S3) & Hrun). rewrite Hrun.
+    assert (Htot : nlen (concat b) <= cap) by (subst F; cbn [map concat fst] in HF; rewrite !nlen_app in HF; lia).
+    destruct (batch_run max b h false Hm Hb Hh Htot d seq) as (d2 & (S1 & S2 & S3) & Hrun). rewrite Hrun.
     specialize (S3 HI). pose proof S3 as (I1 & I2 & I3). pose proof HI as (J1 & J2 & J3).
     subst F. cbn [map concat fst] in *. rewrite !nlen_app in HF.
     unfold push. destruct (N.ltb_spec cap (dssize d2 + nlen (concat b))); [lia|]. cbn [negb].
@@ -303,10 +312,11 @@ Qed.
 
 (* ---------- resynchronisation (C07) ---------- *)
 (* an intact frame (all its packets, in order) leaves any reachable state clean *)
-Lemma absorb max seq f slices d : 5 <= max -> bytes_ok f -> scan f f = SOk slices -> Inv d ->
+Lemma absorb max seq f slices d : 5 <= max -> bytes_ok f -> scan f f = SOk slices -> nlen f <= cap -> Inv d ->
   clean (fst (dec_run d (mk_pkts seq (payloads max slices)))).
 Proof.
-  intros Hm Hb Hs HI. destruct (scan_ok _ _ _ Hs) as (Hcc & Hf & Hne).
+  intros Hm Hb Hs Hcap HI. destruct (scan_ok _ _ _ Hs) as (Hcc & Hf & Hne).
+  pose proof (batching_concat max slices [] (mkH 0 0 0)) as Hbc. fold (batches max slices) in Hbc. cbn [concat app] in Hbc.
   pose proof (batches_ne max slices Hne) as Hbne. pose proof (batches_ok max slices Hne Hf) as Hbo.
   pose proof (batching_hdr max slices [] (mkH 0 0 0) ltac:(unfold hdr_ok; cbn; lia) (scan_bytes_ok _ _ _ Hs Hb)) as Hho.
   fold (batches max slices) in Hho. rewrite mk_pkts_bpkts. unfold payloads.
@@ -319,20 +329,23 @@ Proof.
   rewrite dec_run_app.
   pose proof (dec_run_inv (bpkts seq false (concat (map (batch_payloads max) init))) d HI) as (HI1 & _).
   destruct (dec_run d (bpkts seq false _)) as [d1 r1]. cbn [fst] in HI1.
-  destruct (batch_run max b h true Hm Hb1 Hh1 d1 s') as (d2 & (S1 & S2 & S3) & Hrun). rewrite Hrun.
+  assert (Htot : nlen (concat b) <= cap).
+  { rewrite map_app, concat_app in Hbc. cbn [map concat fst] in Hbc. rewrite app_nil_r in Hbc.
+    apply (f_equal nlen) in Hbc. rewrite nlen_app in Hbc. lia. }
+  destruct (batch_run max b h true Hm Hb1 Hh1 Htot d1 s') as (d2 & (S1 & S2 & S3) & Hrun). rewrite Hrun.
   pose proof (push_marker_clean d2 (concat b) (S3 HI1)) as Hc. destruct (push d2 true (concat b)) as [d3 r]. exact Hc.
 Qed.
 
-(* After ANY packet history, one intact frame f1 is enough: the next intact frame f2 (whatever its
+(* After ANY packet history, one intact valid frame f1 is enough: the next intact frame f2 (whatever its
    sequence numbers: whole frames may have been lost in between) is returned exactly at its last
    packet, "more" before, and the decoder is clean afterwards. *)
-Theorem resync max hist f1 f2 s1 s2 : 5 <= max -> bytes_ok f1 -> encodable f1 -> valid_frame f2 ->
+Theorem resync max hist f1 f2 s1 s2 : 5 <= max -> valid_frame f1 -> valid_frame f2 ->
   exists ps1 q1 ps2 q2, enc max s1 f1 = EOk ps1 q1 /\ enc max s2 f2 = EOk ps2 q2 /\
   let d0 := fst (dec_run dinit hist) in
   let d1 := fst (dec_run d0 ps1) in
   exists d2, dec_run d1 ps2 = (d2, repeat DMore (length ps2 - 1) ++ [DFrame f2]) /\ clean d2.
 Proof.
-  intros Hm Hb1 [sl1 Hs1] Hv2.
+  intros Hm (Hb1 & [sl1 Hs1] & Hc1) Hv2.
   assert (Hcl : clean (fst (dec_run (fst (dec_run dinit hist)) (mk_pkts s1 (payloads max sl1))))).
   { apply (absorb max s1 f1 sl1); try assumption. apply (dec_run_inv hist dinit inv_init). }
   destruct (roundtrip max s2 f2 _ Hm Hv2 Hcl) as (ps2 & q2 & He2 & d2 & Hr & Hc2).
